@@ -390,7 +390,7 @@ func genPairs(thorough bool) ([]*Log, map[string][]*Variant) {
 // must fail alone (hypothesis no_abort_in_batch: an abort-class failure implies rvalid = false).
 func genEdges() ([]*Log, map[string][]*Variant) {
 	rep := func(c string, n int) string { return strings.Repeat(c, n) }
-	ttls := []string{"1", "0", "-1", "+5", " 5", "5 ", "05", "0x10", "1e3", "abc", "", "4294967294", "4294967295", "2147483647",
+	ttls := []string{"1", "0", "-1", "+5", " 5", "5 ", "05", "0x10", "1e3", "abc", "", "4294967294", "4294967295", "4294967293", "3153600000", "2500000000", "2147483647",
 		"9223372036854775807", "9223372036854775808", "99999999999", "1.5"}
 	keys := []string{"t:k", "t:", ":k", "nocolon", "t:" + rep("K", 10238), "t:" + rep("K", 10239), rep("T", 300) + ":k", "t:k:k", "t:\x00"}
 	big := rep("v", 8*1024*1024)
